@@ -514,4 +514,94 @@ theorem both_common (a b : DurTy) (h : PairTyOk a b) (x y : Int) (hin : PairIn a
 theorem mkCD_id (cd : DurTy) (hr : RepOk cd.rep) (s : Int) (hs : cd.rep.inR s = true) : mkCD cd s = s := by
   unfold mkCD; rw [conv_of_inR _ (repOk_w hr) _ hs, conv_of_inR _ (repOk_w hr) _ hs]
 
+/-! ## rounding: rational facts -/
+
+theorem trunc_floor_adjust (X : ℚ) :
+    (if X < (Spec.trunc X : ℚ) then Spec.trunc X - 1 else Spec.trunc X) = ⌊X⌋ := by
+  unfold Spec.trunc
+  by_cases h0 : 0 ≤ X
+  · simp only [if_pos h0, rat_floor_eq]
+    rw [if_neg (not_lt.mpr (Int.floor_le X))]
+  · simp only [if_neg h0, rat_ceil_eq]
+    by_cases hlt : X < (⌈X⌉ : ℚ)
+    · rw [if_pos hlt]
+      symm
+      rw [Int.floor_eq_iff]
+      have := Int.ceil_lt_add_one X
+      push_cast
+      constructor <;> linarith
+    · rw [if_neg hlt]
+      have : (⌈X⌉ : ℚ) = X := le_antisymm (not_lt.mp hlt) (Int.le_ceil X)
+      rw [← this, Int.floor_intCast, Int.ceil_intCast]
+
+theorem trunc_ceil_adjust (X : ℚ) :
+    (if (Spec.trunc X : ℚ) < X then Spec.trunc X + 1 else Spec.trunc X) = ⌈X⌉ := by
+  unfold Spec.trunc
+  by_cases h0 : 0 ≤ X
+  · simp only [if_pos h0, rat_floor_eq]
+    by_cases hlt : (⌊X⌋ : ℚ) < X
+    · rw [if_pos hlt]
+      symm
+      rw [Int.ceil_eq_iff]
+      have := Int.lt_floor_add_one X
+      push_cast
+      constructor <;> linarith
+    · rw [if_neg hlt]
+      have : (⌊X⌋ : ℚ) = X := le_antisymm (Int.floor_le X) (not_lt.mp hlt)
+      rw [← this, Int.ceil_intCast, Int.floor_intCast]
+  · simp only [if_neg h0, rat_ceil_eq]
+    rw [if_neg (not_lt.mpr (Int.le_ceil X))]
+
+/-- comparing `c` ticks of `P` with `t` ticks of `Q` is comparing `c·P/Q` with `t` -/
+theorem spec_lt_left (P Q : ℚ) (hQ : 0 < Q) (c t : Int) :
+    Spec.lt P Q c t = decide (Spec.val P c / Q < (t : ℚ)) := by
+  unfold Spec.lt
+  rw [decide_eq_decide, div_lt_iff₀ hQ]
+  rfl
+
+theorem spec_lt_right (P Q : ℚ) (hQ : 0 < Q) (c t : Int) :
+    Spec.lt Q P t c = decide ((t : ℚ) < Spec.val P c / Q) := by
+  unfold Spec.lt
+  rw [decide_eq_decide, lt_div_iff₀ hQ]
+  rfl
+
+theorem toRat_pos (p : Ratio) (hp : PerOk p) : 0 < p.toRat := by
+  unfold Ratio.toRat
+  exact div_pos (by exact_mod_cast hp.1) (by exact_mod_cast hp.2.1)
+
+theorem step1_eq (dst : DurTy) (hr : RepOk dst.rep) (t d : Int) (h : dst.rep.inR (t + d) = true) :
+    step1 dst t d = .ok (t + d) := by
+  have h1 : dst.rep.inR 1 = true := by
+    obtain ⟨hs, h1, h2⟩ := hr
+    rw [inR_iff]; unfold ITy.min ITy.max; simp only [hs, if_true]
+    have : (2:Int) ^ 31 ≤ 2 ^ (dst.rep.w - 1) := pow_mono _ _ (by omega)
+    have : (2:Int) ^ 31 = 2147483648 := by norm_num
+    omega
+  unfold step1
+  rw [conv_of_inR _ (repOk_w hr) _ h1, Int.mul_one, repOk_promote hr, arith_ok _ (repOk_w hr) _ h]
+  simp only [bind, Except.bind, conv_of_inR _ (repOk_w hr) _ h]
+
+/-- static preconditions of `duration_cast / floor / ceil / round <To>(From)` -/
+def CastTyOk (dst frm : DurTy) : Prop :=
+  RepOk dst.rep ∧ RepOk frm.rep ∧ PerOk frm.per ∧ PerOk dst.per ∧ DivOk frm.per dst.per
+instance (dst frm : DurTy) : Decidable (CastTyOk dst frm) := by unfold CastTyOk; infer_instance
+
+/-- run-time precondition of the cast: the count is a value of its representation, the product `c · CF::num` does not
+    overflow `intmax_t`, the exact (truncated) result is representable in `To::rep` -/
+def CastIn (dst frm : DurTy) (c : Int) : Prop :=
+  frm.rep.inR c = true ∧ imax.inR (c * cfN frm.per dst.per) = true ∧
+    dst.rep.inR (Spec.cast frm.per.toRat dst.per.toRat c) = true
+instance (dst frm : DurTy) (c : Int) : Decidable (CastIn dst frm c) := by unfold CastIn; infer_instance
+
+def castK (dst frm : DurTy) : CastCtx := ⟨dst.rep, imax, ⟨cfN frm.per dst.per, cfD frm.per dst.per⟩⟩
+
+theorem castCore_spec (dst frm : DurTy) (h : CastTyOk dst frm) (c : Int) (hin : CastIn dst frm c) :
+    castCore (castK dst frm) c = .ok (Spec.cast frm.per.toRat dst.per.toRat c) := by
+  obtain ⟨hto, hfrm, hp, hq, hdiv⟩ := h
+  obtain ⟨hc, hmul, hres⟩ := hin
+  obtain ⟨hN, hD, hN', hD', _⟩ := cf_facts frm.per dst.per hp hq
+  unfold castK
+  rw [castCore_eq dst.rep _ _ hN hD (by have := hdiv.1; omega) (by have := hdiv.2; omega) c (repOk_sub hfrm c hc) hmul,
+    cast_val _ _ hp hq, conv_of_inR _ (repOk_w hto) _ hres]
+
 end Tetl.C12
